@@ -43,6 +43,7 @@ def prepare():
 def draw_cfg(st):
     cfg = {
         "world": "seq",
+        "late_remote": True,
         "max_ops": [8, 18, 35][st.choose(3, "size")],
         "max_depth": 1 + st.choose(5, "depth"),
         "value_depth": 0,
